@@ -6,8 +6,9 @@
 (* TreeBidiMap iterators delegate to it.  Checked against the cursor of         *)
 (* AbsCursor (C08): `pos` is the abstract position, carried as a ghost.         *)
 EXTENDS RBT, AbsCursor
-VARIABLES it, pos, ret     \* it = [position, node]; pos = ghost abstract cursor; ret = last return
-ivars == <<T, last, it, pos, ret>>
+VARIABLES it, pos, ret, stale  \* it = [position, node]; pos = ghost abstract cursor; ret = last return;
+                               \* stale = the tree was modified since the iterator was last anchored
+ivars == <<T, last, it, pos, ret, stale>>
 Seq0 == InOrder(T, T.root)
 RECURSIVE ClimbNext(_, _), ClimbPrev(_, _)
 ClimbNext(t, x) == IF Parent(t, x) = Nil THEN Nil ELSE IF x = Left(t, Parent(t, x)) THEN Parent(t, x) ELSE ClimbNext(t, Parent(t, x))
@@ -33,23 +34,31 @@ NextToIt(t, i) == LET j == NextIt(t, i) IN
 PrevToIt(t, i) == LET j == PrevIt(t, i) IN
   IF j.position # "between" THEN j ELSE IF Holds(Pr, 0, t.n[j.node].key, t.n[j.node].val) THEN j ELSE PrevToIt(t, j)
 
-IInit == Init /\ it = [position |-> "closed", node |-> Nil] /\ pos = -1 /\ ret = FALSE
-Build == it.position = "closed" /\ Next /\ UNCHANGED <<it, pos, ret>>
-Open == it.position = "closed" /\ it' = AtBegin /\ pos' = -1 /\ ret' = FALSE /\ UNCHANGED <<T, last>>
+IInit == Init /\ it = [position |-> "closed", node |-> Nil] /\ pos = -1 /\ ret = FALSE /\ stale = FALSE
+Build == it.position = "closed" /\ Next /\ UNCHANGED <<it, pos, ret, stale>>
+Open == it.position = "closed" /\ it' = AtBegin /\ pos' = -1 /\ ret' = FALSE /\ UNCHANGED <<T, last, stale>>
 Opened == it.position # "closed"
-Do(op, j) == /\ Opened /\ it' = j /\ pos' = Move(Seq0, pos, op, Pr)
-             /\ ret' = (j.position = "between") /\ UNCHANGED <<T, last>>
-INext == \/ Build \/ Open
+\* Kept iterators (DESIGN 14.4): the tree is modified while the iterator exists.  The iterator keeps its fields (its node
+\* may have left the tree or moved); what the relative moves do then is unspecified and not modelled; Begin / End / First /
+\* Last assign the fields afresh from the tree as it is now, which anchors the iterator again.
+Absolute(op) == op \in {"Begin", "End", "First", "Last"}
+Mutate == Opened /\ Next /\ stale' = TRUE /\ UNCHANGED <<it, pos, ret>>
+Do(op, j) == /\ Opened /\ (~stale \/ Absolute(op))
+             /\ it' = j /\ pos' = Move(Seq0, pos, op, Pr)
+             /\ ret' = (j.position = "between") /\ stale' = FALSE /\ UNCHANGED <<T, last>>
+INext == \/ Build \/ Open \/ Mutate
          \/ Do("Next", NextIt(T, it)) \/ Do("Prev", PrevIt(T, it))
          \/ Do("Begin", AtBegin) \/ Do("End", AtEnd)
          \/ Do("First", NextIt(T, AtBegin)) \/ Do("Last", PrevIt(T, AtEnd))
          \/ Do("NextTo", NextToIt(T, it)) \/ Do("PrevTo", PrevToIt(T, it))
 ISpec == IInit /\ [][INext]_ivars
 \* refinement of the cursor: the concrete iterator state is a function of the abstract position
-CursorInv == Opened =>
+CursorInv == (Opened /\ ~stale) =>
    /\ (it.position = "between") = Inside(Seq0, pos)
    /\ (it.position = "between" => <<T.n[it.node].key, T.n[it.node].val>> = Seq0[pos + 1])    \* Key(), Value()
    /\ (it.position = "begin" => pos = -1) /\ (it.position = "end" => pos = Len(Seq0))
    /\ (ret => Inside(Seq0, pos))
-IView == <<Canon(T, T.root), it.position, IF it.node = Nil THEN 0 ELSE T.n[it.node].key, pos>>
+\* (a stale iterator's fields are dead until the next absolute jump overwrites them: they are left out of the view)
+IView == IF stale THEN <<Canon(T, T.root), "stale", 0, 0>>
+         ELSE <<Canon(T, T.root), it.position, IF it.node = Nil THEN 0 ELSE T.n[it.node].key, pos>>
 =============================================================================
